@@ -2,6 +2,7 @@ package main
 
 import (
 	"fmt"
+	"os"
 	"go/ast"
 	"go/token"
 	"go/types"
@@ -29,7 +30,7 @@ import (
 // the key-selector loop of Reader: four independent agents produced the same slip in four functions).
 func init() {
 	for _, id := range []string{"C01", "C02", "C03", "C04", "C05", "C06", "C07", "C08", "C09", "C10", "C11", "C12", "C13", "C14", "C15", "C16", "C17", "C18", "C19", "C20"} {
-		register(id, ruleGoShadowStale)
+		registerLate(id, ruleGoShadowStale)
 	}
 }
 
@@ -47,7 +48,18 @@ func (c *Ctx) reachableFromAnalysed() map[*ssa.Function]bool {
 			r = r.Parent()
 		}
 		rk := c.P.funcKey(r)
-		if c.Functions[rk] || c.Functions[r.Name()] || c.Functions[strings.TrimPrefix(rk, "genql.")] {
+		hit := c.Functions[rk] || c.Functions[r.Name()] || c.Functions[strings.TrimPrefix(rk, "genql.")]
+		if recv := r.Signature.Recv(); recv != nil && !hit {
+			// the rules spell a method `(*Join).Exec` or `sanitizer.(*Command).Sanitize`; go/ssa spells it `(*sanitizer.Command).Sanitize`
+			rt := types.TypeString(recv.Type(), func(*types.Package) string { return "" })
+			short := "(" + rt + ")." + r.Name()
+			pkg := ""
+			if r.Pkg != nil {
+				pkg = r.Pkg.Pkg.Name() + "."
+			}
+			hit = c.Functions[short] || c.Functions[pkg+short]
+		}
+		if hit {
 			roots[f] = true
 		}
 	}
@@ -132,6 +144,9 @@ func ruleGoShadowStale(c *Ctx) {
 				key, ok := wanted[fd.Name.Pos()]
 				if !ok {
 					continue
+				}
+				if os.Getenv("GENQL_LIST") == "go.shadow-units" {
+					fmt.Println("unit", key)
 				}
 				us := []shadowUnit{{name: key, typ: fd.Type, body: fd.Body}}
 				n := 0
